@@ -1,7 +1,7 @@
 """lib_spell.py - call one library function through a real script twice: every integral number (recursively inside arrays and
 objects) once as a host int and once as a float.
 in : [{'f': name, 'args': [enc]}]     enc: ['z'] ['b',bool] ['n',number] ['s',str] ['a',[enc]] ['o',[[k,enc]]] ['d'] ['r',pattern] ['fn'] ['alias',i]
-out: [{'int': run, 'flt': run}]      run = {'dump': graph dump of [result] + arguments after the call, 'failed': [messages], 'logs': [...]}
+out: [{'int': run, 'flt': run, 'mix': run (integral numbers int or float following a fixed irregular sequence inside one argument list)}]      run = {'dump': graph dump of [result] + arguments after the call, 'failed': [messages], 'logs': [...]}
 """
 import datetime
 import json
@@ -65,6 +65,9 @@ def classify(v):
     return ('unknown', type(v).__name__)
 
 
+MIX = [0]
+
+
 def build(enc, as_float, built):
     k = enc[0]
     if k == 'z':
@@ -74,6 +77,9 @@ def build(enc, as_float, built):
     if k == 'n':
         x = enc[1]
         if isinstance(x, int) or (isinstance(x, float) and x == int(x)):
+            if as_float == 'mix':          # both spellings inside ONE argument list / container
+                MIX[0] = (MIX[0] * 1103515245 + 12345) % (2 ** 31)          # a fixed irregular sequence (rows of a table share a field pattern)
+                return float(x) if (MIX[0] >> 16) & 1 else int(x)
             return float(x) if as_float else int(x)
         return x
     if k == 's':
@@ -94,6 +100,7 @@ def build(enc, as_float, built):
 
 
 def run_one(case, as_float):
+    MIX[0] = 0
     args = []
     for enc in case['args']:
         args.append(build(enc, as_float, args))
@@ -120,7 +127,7 @@ def run_one(case, as_float):
 
 def main():
     cases = json.load(sys.stdin)
-    json.dump([{'int': run_one(c, False), 'flt': run_one(c, True)} for c in cases], sys.stdout)
+    json.dump([{'int': run_one(c, False), 'flt': run_one(c, True), 'mix': run_one(c, 'mix')} for c in cases], sys.stdout)
 
 
 if __name__ == '__main__':
